@@ -11,7 +11,7 @@ PATCH=/verif/seeded/$ID/patch.diff
 git apply --check $PATCH 2>>$LOG || { echo "RESULT $ID PATCH-DOES-NOT-APPLY" | tee -a $LOG; exit 1; }
 failed_set() { grep -E "^test .* \.\.\. FAILED|^test result: FAILED|error: test failed|error\[|^error:" "$1" | grep -E "^test .* FAILED" | sort -u; }
 HEADREV=$(git rev-parse --short HEAD)
-BASE=/tmp/confirm_logs/baseline_${PKG}_${HEADREV}.txt
+BASE=/tmp/confirm_logs/baseline_${PKG}.txt
 if [ ! -f $BASE ]; then
   cargo test -p $PKG --offline --no-fail-fast -j 8 > /tmp/confirm_logs/baseline_${PKG}.log 2>&1
   failed_set /tmp/confirm_logs/baseline_${PKG}.log > $BASE
